@@ -51,6 +51,10 @@ CLAIMED = {
    text='Coq theorems: the operators I + cA built by the schemes are entrywise delta + cA (c = h, -h, -h/2, +h/2); one explicit Euler step equals the dense recurrence when the orthonormalisation does not truncate; accepted time points of the adaptive controller increase strictly and never pass time_end (over Q, every sequence of positive step sizes). explicit Euler, HOD, implicit Euler and trapezoidal rule are modelled as compositions of the C01/C03/C07 models and tied to /repo by oracle-tape differential execution of whole trajectories; side check against dense recurrences (all schemes, varying steps, ALS/MALS, normalize 0/1/2, HOD orders 2-8 with start-up), error estimators, adaptive method.',
    note='PARTIAL: implicit Euler / trapezoidal exactness rests on the hypothesis that the inner ALS/MALS solve is exact (C07, representable ranks); HOD recurrence, error estimators and unit norms (sqrt) are covered by correspondence + side check. 1-normalisation only under the code\'s own precondition (non-negative states).',
    technique='Coq proof by composition of the TT-operation theorems + oracle-tape correspondence of trajectories', design='6 C09'),
+ 'C10': dict(
+   text='Coq theorems: a two-site stage update applies the local propagator to the contracted core pair (SVD value conjunct); coefficient conditions of Lie, Strang, Yoshida (2w1+w0=1, 2w1^3+w0^3=0 for c^3=2, over R) and Kahan-Li (palindromic, sum 1, cubic and quintic sums < 1e-25, exact Q arithmetic) re-proved against the coefficient table and stage sequences regenerated from ode.py on every run. lie/strang (homogeneous and site-dependent components) are tied to /repo by differential execution with expm and SVD tapes, the stage order coming from the regenerated table; side check: all four schemes against the dense ordered product of scipy.linalg.expm factors, observed convergence orders, norm preservation for skew-Hermitian generators.',
+   note='PARTIAL: "one step = ordered dense product" as a composed theorem and the global orders (BCH / composition theory) are side-check claims; Yoshida/Kahan-Li have irrational/decimal coefficients and are covered by the translator + side check, not by integer correspondence. Trusted: Coq kernel, Reals axioms (Yoshida), translator, expm/SVD oracles.',
+   technique='translator-regenerated coefficient tables + Coq proofs (field/Q arithmetic, pair update) + oracle-tape correspondence', design='6 C10'),
 }
 NOT_YET = {}
 ALL = ['C%02d' % i for i in range(1, 21)]
